@@ -1,6 +1,8 @@
 (** C08 -- [a + b] (t2grid.__add__) gives a consistent grid when both operands are consistent and
-    two blocks of the operands that carry the same name are the same object (in particular when
-    the operands have no block name in common, which is what [embed] tests).
+    a block of [a] that has the name of a DIFFERENT block of [b] (and is therefore replaced by it in the
+    sum) has no connections -- the precondition of [add_block], lifted to the sum.  Special cases: two
+    blocks of the operands that carry the same name are the same object; the operands have no block
+    name in common (what [embed] tests).
 
     The result is built by adding the operands' OWN objects to an empty grid, so while it is being
     built its blocks already carry their connection_name sets although the connections are not in
@@ -72,6 +74,11 @@ Lemma same_name_sym g a b : same_name_same_block g a b -> same_name_same_block g
 Proof. intros S i i' H H' E. symmetry. apply (S i' i); auto. Qed.
 Lemma same_name_self g : Inv g -> same_name_same_block g (view_of g) (view_of g).
 Proof. intros I i i' H H' E. exact (inv_bn_inj g i i' I H H' E). Qed.
+(** a block of the first operand that is replaced in the sum (the second operand has a different block of that name) is unconnected *)
+Definition replaced_blocks_unconnected (g : grid) (a b : view) : Prop :=
+  forall i i', In i (v_blist a) -> In i' (v_blist b) -> bn g i = bn g i' -> i = i' \/ cn g i = [].
+Lemma same_name_replaced g a b : same_name_same_block g a b -> replaced_blocks_unconnected g a b.
+Proof. intros S i i' H H' E. left. apply S; auto. Qed.
 (** no block name in common (what [embed] tests) is a special case *)
 Lemma common_name_false g a b : common_name g a b = false -> same_name_same_block g a b.
 Proof.
@@ -131,31 +138,44 @@ Proof.
   - apply (in_keys_aset str_eqb str_spec). left. reflexivity.
 Qed.
 
-(** [result.add_block(blk)]: a block that is filed under the same name must be this very object *)
+(** [result.add_block(blk)]: a different block that is filed under the same name (it is replaced) is not an end of
+    any connection of the result *)
 Lemma pre_B g0 g i g' : Pre g0 g -> (i < next g0)%positive -> (br g0 i < next g0)%positive ->
   In (rn g0 (br g0 i)) (map fst (rdict g)) ->
-  (forall old, aget str_eqb (bdict g) (bn g0 i) = Some old -> old = i) ->
+  (forall old, aget str_eqb (bdict g) (bn g0 i) = Some old ->
+               old = i \/ forall j, In j (clist g) -> c0 g0 j <> old /\ c1 g0 j <> old) ->
   add_block_obj g i = Ok g' ->
-  Pre g0 g' /\ (forall x, In x (blist g') <-> In x (blist g) \/ x = i) /\ rdict g' = rdict g /\ clist g' = clist g /\ cdict g' = cdict g.
+  Pre g0 g' /\ (forall x, In x (blist g') -> In x (blist g) \/ x = i) /\ In i (blist g') /\
+  (forall x, In x (blist g) -> (bn g0 x = bn g0 i -> x = i) -> In x (blist g')) /\
+  rdict g' = rdict g /\ clist g' = clist g /\ cdict g' = cdict g.
 Proof.
   intros P Hlt Hbr Hrk Hold H. unfold add_block_obj, bget in H. rewrite (p_bn _ _ P) in H.
   pose proof (DL_add_obj str_eqb str_spec (bn g0) (blist g) (bdict g) i (p_b _ _ P)) as D.
-  assert (Q : forall x, In x (ladd str_eqb (bn g0) (blist g) (bdict g) i) <-> In x (blist g) \/ x = i).
-  { intro x. split; [apply ladd_incl|]. intros [Hx| ->]; [|apply (ladd_in str_eqb str_spec); apply P].
-    destruct (Pos.eq_dec x i) as [->|N]; [apply (ladd_in str_eqb str_spec); apply P|].
-    apply (ladd_keep str_eqb str_spec); [apply P|exact Hx|]. intro E. apply N. apply Hold. exact E. }
-  unfold ladd in D, Q.
-  assert (G : g' = set_bdict (set_blist g (match aget str_eqb (bdict g) (bn g0 i) with
-                                          | Some old => lreplace (blist g) old i | None => blist g ++ [i] end))
-                              (aset str_eqb (bdict g) (bn g0 i) i)).
-  { destruct (aget str_eqb (bdict g) (bn g0 i)) as [old|]; [destruct (mem old (blist g)); [|discriminate]|]; inversion H; reflexivity. }
+  set (L := ladd str_eqb (bn g0) (blist g) (bdict g) i) in *.
+  assert (Li : In i L) by (apply (ladd_in str_eqb str_spec); apply P).
+  assert (Lincl : forall x, In x L -> In x (blist g) \/ x = i) by (intro x; apply ladd_incl).
+  (* what stays: everything but a different block of the same name *)
+  assert (Lkeep : forall x, In x (blist g) -> aget str_eqb (bdict g) (bn g0 i) <> Some x \/ x = i -> In x L).
+  { intros x Hx [N| ->]; [|exact Li]. apply (ladd_keep str_eqb str_spec); [apply P|exact Hx|exact N]. }
+  assert (G : g' = set_bdict (set_blist g L) (aset str_eqb (bdict g) (bn g0 i) i)).
+  { unfold L, ladd. destruct (aget str_eqb (bdict g) (bn g0 i)) as [old|]; [destruct (mem old (blist g)); [|discriminate]|]; inversion H; reflexivity. }
   subst g'. clear H.
-  split; [|gs; repeat split; try reflexivity; apply Q].
-  constructor; try apply P; gs; auto.
-  - intros j Hj. destruct (p_ends _ _ P j Hj) as [A B]. rewrite !Q. auto.
-  - intros x Hx. apply Q in Hx. destruct Hx as [Hx| ->]; [apply (p_rock _ _ P); exact Hx|exact Hrk].
-  - intros x Hx. apply Q in Hx. destruct Hx as [Hx| ->]; [apply (p_brfresh _ _ P); exact Hx|exact Hbr].
-  - intros x Hx. apply Q in Hx. destruct Hx as [Hx| ->]; [apply (p_bfresh _ _ P); exact Hx|exact Hlt].
+  (* an end of a connection of the result is not replaced *)
+  assert (Ends : forall j, In j (clist g) -> In (c0 g0 j) L /\ In (c1 g0 j) L).
+  { intros j Hj. destruct (p_ends _ _ P j Hj) as [A B].
+    split; (apply Lkeep; [assumption|]);
+      (destruct (aget str_eqb (bdict g) (bn g0 i)) as [old|] eqn:E; [|left; discriminate]);
+      (destruct (Hold old eq_refl) as [->|No]; [destruct (Pos.eq_dec (c0 g0 j) i), (Pos.eq_dec (c1 g0 j) i); auto; left; congruence|]);
+      left; intro X; inversion X; subst old; destruct (No j Hj); contradiction. }
+  split; [|gs; repeat split; try reflexivity; auto].
+  - constructor; try apply P; gs; auto.
+    + intros x Hx. apply Lincl in Hx. destruct Hx as [Hx| ->]; [apply (p_rock _ _ P); exact Hx|exact Hrk].
+    + intros x Hx. apply Lincl in Hx. destruct Hx as [Hx| ->]; [apply (p_brfresh _ _ P); exact Hx|exact Hbr].
+    + intros x Hx. apply Lincl in Hx. destruct Hx as [Hx| ->]; [apply (p_bfresh _ _ P); exact Hx|exact Hlt].
+  - intros x Hx Hn. apply Lkeep; [exact Hx|].
+    destruct (aget str_eqb (bdict g) (bn g0 i)) as [old|] eqn:E; [|left; discriminate].
+    destruct (Pos.eq_dec x i) as [->|N]; [right; reflexivity|left]. intro X. inversion X; subst old. apply N. apply Hn.
+    exact (proj2 (DL_aget str_eqb str_spec _ _ _ _ _ (p_b _ _ P) E)).
 Qed.
 
 Lemma cn_add2' g a b k i x :
@@ -231,26 +251,40 @@ Qed.
 
 Lemma pre_Bs g0 l : forall g g', Pre g0 g ->
   (forall i, In i l -> (i < next g0)%positive /\ (br g0 i < next g0)%positive /\ In (rn g0 (br g0 i)) (map fst (rdict g))) ->
-  (forall i i', In i (blist g) \/ In i l -> In i' l -> bn g0 i = bn g0 i' -> i = i') ->
+  (forall i i', In i l -> In i' l -> bn g0 i = bn g0 i' -> i = i') ->
+  (forall i i', In i (blist g) -> In i' l -> bn g0 i = bn g0 i' ->
+                i = i' \/ forall j, In j (clist g) -> c0 g0 j <> i /\ c1 g0 j <> i) ->
   add_block_objs g l = Ok g' ->
-  Pre g0 g' /\ (forall x, In x (blist g') <-> In x (blist g) \/ In x l) /\ rdict g' = rdict g /\ clist g' = clist g /\ cdict g' = cdict g.
+  Pre g0 g' /\ (forall x, In x (blist g') -> In x (blist g) \/ In x l) /\ (forall x, In x l -> In x (blist g')) /\
+  (forall x, In x (blist g) -> (forall i', In i' l -> bn g0 x = bn g0 i' -> x = i') -> In x (blist g')) /\
+  rdict g' = rdict g /\ clist g' = clist g /\ cdict g' = cdict g.
 Proof.
-  induction l as [|i r IH]; cbn [add_block_objs]; intros g g' P F S H.
-  - inversion H; subst. split; [exact P|]. split; [intro x; cbn; tauto|]. auto.
+  induction l as [|i r IH]; cbn [add_block_objs]; intros g g' P F U S H.
+  - inversion H; subst. split; [exact P|]. split; [auto|]. split; [intros x []|]. split; [auto|]. auto.
   - destruct (add_block_obj g i) as [g1|] eqn:E; cbn [bind] in H; [|discriminate].
     destruct (F i (or_introl eq_refl)) as [F1 [F2 F3]].
-    assert (O : forall old, aget str_eqb (bdict g) (bn g0 i) = Some old -> old = i).
+    assert (O : forall old, aget str_eqb (bdict g) (bn g0 i) = Some old ->
+                            old = i \/ forall j, In j (clist g) -> c0 g0 j <> old /\ c1 g0 j <> old).
     { intros old Ho. destruct (DL_aget str_eqb str_spec _ _ _ _ _ (p_b _ _ P) Ho) as [Hin Hn].
-      apply S; [left; exact Hin|left; reflexivity|exact Hn]. }
-    destruct (pre_B _ _ _ _ P F1 F2 F3 O E) as [P1 [Q1 [R1 [C1 D1]]]].
+      apply S; [exact Hin|left; reflexivity|exact Hn]. }
+    destruct (pre_B _ _ _ _ P F1 F2 F3 O E) as [P1 [Q1 [Qi [Qk [R1 [C1 D1]]]]]].
     assert (F' : forall x, In x r -> (x < next g0)%positive /\ (br g0 x < next g0)%positive /\ In (rn g0 (br g0 x)) (map fst (rdict g1))).
     { intros x Hx. rewrite R1. apply F. right. exact Hx. }
-    assert (S' : forall x x', In x (blist g1) \/ In x r -> In x' r -> bn g0 x = bn g0 x' -> x = x').
-    { intros x x' Hx Hx'. apply S; [|right; exact Hx'].
-      destruct Hx as [Hx|Hx]; [apply Q1 in Hx; destruct Hx as [Hx| ->]; [left; exact Hx|right; left; reflexivity]|right; right; exact Hx]. }
-    destruct (IH g1 g' P1 F' S' H) as [P' [Q' [R' [C' D']]]].
-    split; [exact P'|]. split; [|repeat split; congruence].
-    intro x. rewrite Q', Q1. cbn. intuition.
+    assert (U' : forall x x', In x r -> In x' r -> bn g0 x = bn g0 x' -> x = x').
+    { intros x x' Hx Hx'. apply U; right; assumption. }
+    assert (S' : forall x x', In x (blist g1) -> In x' r -> bn g0 x = bn g0 x' ->
+                              x = x' \/ forall j, In j (clist g1) -> c0 g0 j <> x /\ c1 g0 j <> x).
+    { intros x x' Hx Hx' En. rewrite C1. apply Q1 in Hx. destruct Hx as [Hx| ->].
+      - apply S; [exact Hx|right; exact Hx'|exact En].
+      - left. apply U; [left; reflexivity|right; exact Hx'|exact En]. }
+    destruct (IH g1 g' P1 F' U' S' H) as [P' [Q' [Qi' [Qk' [R' [C' D']]]]]].
+    split; [exact P'|]. split; [|split; [|split; [|repeat split; congruence]]].
+    + intros x Hx. apply Q' in Hx. destruct Hx as [Hx|Hx]; [apply Q1 in Hx; cbn; intuition|cbn; tauto].
+    + intros x [<-|Hx]; [|apply Qi'; exact Hx].
+      apply Qk'; [exact Qi|]. intros i' Hi' En. apply U; [left; reflexivity|right; exact Hi'|exact En].
+    + intros x Hx Hn. apply Qk'.
+      * apply Qk; [exact Hx|]. intro En. apply Hn; [left; reflexivity|exact En].
+      * intros i' Hi' En. apply Hn; [right; exact Hi'|exact En].
 Qed.
 
 Lemma pre_Cs g0 l : forall g g', Pre g0 g ->
@@ -276,9 +310,11 @@ Qed.
 
 (** ** one operand *)
 Lemma add_grid_spec g0 r v r' : Pre g0 r -> Inv (with_view g0 v) ->
-  (forall i i', In i (blist r) -> In i' (v_blist v) -> bn g0 i = bn g0 i' -> i = i') ->
+  (forall i i', In i (blist r) -> In i' (v_blist v) -> bn g0 i = bn g0 i' ->
+                i = i' \/ forall j, In j (clist r) -> c0 g0 j <> i /\ c1 g0 j <> i) ->
   add_grid r v = Ok r' ->
-  Pre g0 r' /\ (forall x, In x (blist r') <-> In x (blist r) \/ In x (v_blist v)) /\
+  Pre g0 r' /\ (forall x, In x (blist r') -> In x (blist r) \/ In x (v_blist v)) /\ (forall x, In x (v_blist v) -> In x (blist r')) /\
+  (forall x, In x (blist r) -> (forall i', In i' (v_blist v) -> bn g0 x = bn g0 i' -> x = i') -> In x (blist r')) /\
   (forall x, In x (clist r') -> In x (clist r) \/ In x (v_clist v)) /\
   (forall k, In k (map fst (cdict r)) -> In k (map fst (cdict r'))) /\
   (forall j, In j (v_clist v) -> In (ckey g0 j) (map fst (cdict r'))).
@@ -292,14 +328,19 @@ Proof.
     pose proof (i_rock _ Iv i Hi) as X. apply (DL_key_in str_eqb str_spec _ _ _ _ (i_r _ Iv)) in X.
     destruct X as [j [Hj Hn]]. cbn in Hj. change (rn g0 j = rn g0 (br g0 i)) in Hn.
     rewrite <- Hn. apply N1. exact Hj. }
-  assert (S2 : forall i i', In i (blist g1) \/ In i (v_blist v) -> In i' (v_blist v) -> bn g0 i = bn g0 i' -> i = i').
-  { intros i i' [Hi|Hi] Hi' E; [rewrite B1 in Hi; apply S; auto|]. exact (inv_bn_inj _ i i' Iv Hi Hi' E). }
-  destruct (pre_Bs g0 _ _ _ P1 F2 S2 E2) as [P2 [Q2 [R2 [C2 D2]]]].
+  assert (U2 : forall i i', In i (v_blist v) -> In i' (v_blist v) -> bn g0 i = bn g0 i' -> i = i').
+  { intros i i' Hi Hi' E. exact (inv_bn_inj _ i i' Iv Hi Hi' E). }
+  assert (S2 : forall i i', In i (blist g1) -> In i' (v_blist v) -> bn g0 i = bn g0 i' ->
+                            i = i' \/ forall j, In j (clist g1) -> c0 g0 j <> i /\ c1 g0 j <> i).
+  { intros i i' Hi Hi' E. rewrite B1 in Hi. rewrite C1. apply (S i i'); auto. }
+  destruct (pre_Bs g0 _ _ _ P1 F2 U2 S2 E2) as [P2 [Q2 [Qi2 [Qk2 [R2 [C2 D2]]]]]].
   assert (F3 : forall j, In j (v_clist v) -> (j < next g0)%positive /\ In (c0 g0 j) (blist g2) /\ In (c1 g0 j) (blist g2)).
-  { intros j Hj. split; [exact (i_cfresh _ Iv j Hj)|]. destruct (i_ends _ Iv j Hj) as [A B]. rewrite !Q2. split; right; [exact A|exact B]. }
+  { intros j Hj. split; [exact (i_cfresh _ Iv j Hj)|]. destruct (i_ends _ Iv j Hj) as [A B]. split; apply Qi2; [exact A|exact B]. }
   destruct (pre_Cs g0 _ _ _ P2 F3 H) as [P3 [B3 [R3 [L3 [M3 N3]]]]].
-  split; [exact P3|]. split; [|split; [|split]].
-  - intro x. rewrite B3, Q2, B1. tauto.
+  split; [exact P3|]. split; [|split; [|split; [|split; [|split]]]].
+  - intros x Hx. rewrite B3 in Hx. apply Q2 in Hx. rewrite B1 in Hx. exact Hx.
+  - intros x Hx. rewrite B3. apply Qi2. exact Hx.
+  - intros x Hx Hn. rewrite B3. apply Qk2; [rewrite B1; exact Hx|exact Hn].
   - intros x Hx. apply L3 in Hx. rewrite C2, C1 in Hx. exact Hx.
   - intros k Hk. apply M3. rewrite D2. clear - Hk E1.
     (* the rock type loop leaves the connection dict alone *)
@@ -312,35 +353,58 @@ Proof.
 Qed.
 
 (** ** the sum *)
-Theorem grid_add_spec g a b r : Inv (with_view g a) -> Inv (with_view g b) -> same_name_same_block g a b ->
+Theorem grid_add_spec g a b r : Inv (with_view g a) -> Inv (with_view g b) -> replaced_blocks_unconnected g a b ->
   grid_add g a b = Ok r ->
-  Inv r /\ Pre g r /\ (forall x, In x (blist r) <-> In x (v_blist a) \/ In x (v_blist b)) /\
+  Inv r /\ Pre g r /\ (forall x, In x (blist r) -> In x (v_blist a) \/ In x (v_blist b)) /\
+  (forall x, In x (v_blist b) -> In x (blist r)) /\
   (forall x, In x (clist r) -> In x (v_clist a) \/ In x (v_clist b)).
 Proof.
   intros Ia Ib S H. unfold grid_add in H.
   destruct (add_grid (with_view g view0) a) as [r1|] eqn:E1; cbn [bind] in H; [|discriminate].
-  destruct (add_grid_spec g _ _ _ (pre_init g) Ia (fun i i' (X : In i []) _ _ => match X with end) E1) as [P1 [Q1 [L1 [M1 N1]]]].
-  assert (S1 : forall i i', In i (blist r1) -> In i' (v_blist b) -> bn g i = bn g i' -> i = i').
-  { intros i i' Hi. apply Q1 in Hi. destruct Hi as [[]|Hi]. apply S. exact Hi. }
-  destruct (add_grid_spec g _ _ _ P1 Ib S1 H) as [P2 [Q2 [L2 [M2 N2]]]].
-  assert (Qb : forall x, In x (blist r) <-> In x (v_blist a) \/ In x (v_blist b)).
-  { intro x. rewrite Q2, Q1. cbn. tauto. }
+  destruct (add_grid_spec g _ _ _ (pre_init g) Ia (fun i i' (X : In i []) _ _ => match X with end) E1)
+    as [P1 [Q1 [Qi1 [_ [L1 [M1 N1]]]]]].
+  assert (A1 : forall x, In x (blist r1) -> In x (v_blist a)) by (intros x Hx; apply Q1 in Hx; destruct Hx as [[]|Hx]; exact Hx).
+  assert (Lc1 : forall x, In x (clist r1) -> In x (v_clist a)) by (intros x Hx; apply L1 in Hx; destruct Hx as [[]|Hx]; exact Hx).
+  (* a block of [a] without connection names is not an end of a connection of [a] *)
+  assert (Un : forall i, In i (v_blist a) -> cn g i = [] -> forall j, In j (v_clist a) -> c0 g j <> i /\ c1 g j <> i).
+  { intros i Hi Hc j Hj. assert (X : (c0 g j = i \/ c1 g j = i) -> False).
+    { intro M. assert (K : In (ckey g j) (cn g i)) by (apply (i_back _ Ia i Hi); exists j; auto). rewrite Hc in K. exact K. }
+    split; intro Y; apply X; auto. }
+  assert (S1 : forall i i', In i (blist r1) -> In i' (v_blist b) -> bn g i = bn g i' ->
+                            i = i' \/ forall j, In j (clist r1) -> c0 g j <> i /\ c1 g j <> i).
+  { intros i i' Hi Hi' En. destruct (S i i' (A1 i Hi) Hi' En) as [E|Hc]; [left; exact E|right].
+    intros j Hj. apply (Un i (A1 i Hi) Hc j (Lc1 j Hj)). }
+  destruct (add_grid_spec g _ _ _ P1 Ib S1 H) as [P2 [Q2 [Qi2 [Qk2 [L2 [M2 N2]]]]]].
+  assert (Qb : forall x, In x (blist r) -> In x (v_blist a) \/ In x (v_blist b)).
+  { intros x Hx. apply Q2 in Hx. destruct Hx as [Hx|Hx]; [left; apply A1; exact Hx|right; exact Hx]. }
   assert (Lc : forall x, In x (clist r) -> In x (v_clist a) \/ In x (v_clist b)).
-  { intros x Hx. apply L2 in Hx. destruct Hx as [Hx|Hx]; [apply L1 in Hx; destruct Hx as [[]|Hx]; left; exact Hx|right; exact Hx]. }
-  split; [|split; [exact P2|split; [exact Qb|exact Lc]]].
+  { intros x Hx. apply L2 in Hx. destruct Hx as [Hx|Hx]; [left; apply Lc1; exact Hx|right; exact Hx]. }
+  (* an end of a connection of [a] is in the sum: it is connected, hence not replaced *)
+  assert (Ka : forall ja, In ja (v_clist a) -> In (c0 g ja) (blist r) /\ In (c1 g ja) (blist r)).
+  { intros ja Hja. destruct (i_ends _ Ia ja Hja) as [A B].
+    change (In (c0 g ja) (v_blist a)) in A. change (In (c1 g ja) (v_blist a)) in B.
+    assert (K0 : In (ckey g ja) (cn g (c0 g ja))) by (apply (i_back (with_view g a) Ia (c0 g ja) A); exists ja; auto).
+    assert (K1 : In (ckey g ja) (cn g (c1 g ja))) by (apply (i_back (with_view g a) Ia (c1 g ja) B); exists ja; auto).
+    split; (apply Qk2; [apply Qi1; assumption|]); intros i' Hi' En.
+    - destruct (S (c0 g ja) i' A Hi' En) as [E|Hc]; [exact E|]. rewrite Hc in K0. destruct K0.
+    - destruct (S (c1 g ja) i' B Hi' En) as [E|Hc]; [exact E|]. rewrite Hc in K1. destruct K1. }
+  assert (Kb : forall jb, In jb (v_clist b) -> In (c0 g jb) (blist r) /\ In (c1 g jb) (blist r)).
+  { intros jb Hjb. destruct (i_ends _ Ib jb Hjb) as [A B]. split; apply Qi2; assumption. }
+  split; [|split; [exact P2|split; [exact Qb|split; [exact Qi2|exact Lc]]]].
   pose proof (pre_ckey _ _ P2) as Ek.
   (* every connection key recorded by a block of an operand is the key of a connection of the result that mentions it *)
-  assert (W : forall v, Inv (with_view g v) -> (forall x, In x (v_blist v) -> In x (blist r)) ->
+  assert (W : forall v, Inv (with_view g v) ->
+                        (forall j, In j (v_clist v) -> In (c0 g j) (blist r) /\ In (c1 g j) (blist r)) ->
                         (forall j, In j (v_clist v) -> In (ckey g j) (map fst (cdict r))) ->
                         forall i, In i (v_blist v) -> forall k, In k (cn g i) ->
                         exists j, In j (clist r) /\ ckey g j = k /\ (c0 g j = i \/ c1 g j = i)).
-  { intros v Iv Sub Keys i Hi k Hk.
-    destruct (proj1 (i_back _ Iv i Hi k) Hk) as [ja [Hja [Ka Ma]]].
-    change (ckey (with_view g v) ja) with (ckey g ja) in Ka.
+  { intros v Iv Kv Keys i Hi k Hk.
+    destruct (proj1 (i_back _ Iv i Hi k) Hk) as [ja [Hja [Ka' Ma]]].
+    change (ckey (with_view g v) ja) with (ckey g ja) in Ka'.
     change (c0 (with_view g v) ja) with (c0 g ja) in Ma. change (c1 (with_view g v) ja) with (c1 g ja) in Ma.
     pose proof (Keys ja Hja) as X. apply (DL_key_in key2_eqb key2_spec _ _ _ _ (p_c _ _ P2)) in X.
     destruct X as [j' [Hj' Kj']]. exists j'. split; [exact Hj'|]. split; [congruence|].
-    destruct (p_ends _ _ P2 j' Hj') as [A' B']. destruct (i_ends _ Iv ja Hja) as [A B].
+    destruct (p_ends _ _ P2 j' Hj') as [A' B']. destruct (Kv ja Hja) as [A B].
     unfold ckey in Kj'. inversion Kj' as [[K0 K1]].
     assert (E0 : c0 g j' = c0 g ja) by (apply (DL_inj str_eqb str_spec _ _ _ _ _ (p_b _ _ P2)); auto).
     assert (E1' : c1 g j' = c1 g ja) by (apply (DL_inj str_eqb str_spec _ _ _ _ _ (p_b _ _ P2)); auto).
@@ -353,8 +417,8 @@ Proof.
   - intros i Hi k. rewrite Ek, (p_c0 _ _ P2), (p_c1 _ _ P2). split.
     + intro Hk. destruct (p_cn _ _ P2 i k Hk) as [Hk0|X]; [|exact X].
       apply Qb in Hi. destruct Hi as [Hi|Hi].
-      * apply (W a Ia); [intros x Hx; apply Qb; left; exact Hx|intros j Hj; apply M2; apply N1; exact Hj|exact Hi|exact Hk0].
-      * apply (W b Ib); [intros x Hx; apply Qb; right; exact Hx|exact N2|exact Hi|exact Hk0].
+      * apply (W a Ia); [exact Ka|intros j Hj; apply M2; apply N1; exact Hj|exact Hi|exact Hk0].
+      * apply (W b Ib); [exact Kb|exact N2|exact Hi|exact Hk0].
     + intros [j [Hj [Kj Mj]]]. destruct (p_back _ _ P2 j Hj) as [A B]. rewrite <- Kj. destruct Mj as [<-|<-]; assumption.
   - intros i Hi. rewrite (p_rn _ _ P2), (p_br _ _ P2). apply (p_rock _ _ P2). exact Hi.
   - intros i Hi. rewrite (p_br _ _ P2), (p_next _ _ P2). apply (p_brfresh _ _ P2). exact Hi.
@@ -363,6 +427,6 @@ Proof.
   - intros j Hj. rewrite (p_next _ _ P2). apply (p_cfresh _ _ P2). exact Hj.
 Qed.
 
-Theorem grid_add_inv g a b r : Inv (with_view g a) -> Inv (with_view g b) -> same_name_same_block g a b ->
+Theorem grid_add_inv g a b r : Inv (with_view g a) -> Inv (with_view g b) -> replaced_blocks_unconnected g a b ->
   grid_add g a b = Ok r -> Inv r.
 Proof. intros Ia Ib S H. exact (proj1 (grid_add_spec g a b r Ia Ib S H)). Qed.
